@@ -53,7 +53,13 @@ type ModLoc struct {
 	Idx    int
 }
 
+type Split struct {
+	Name   string
+	Lo, Hi int
+}
+
 type Loop struct {
+	Splits  []Split
 	Ordinal int
 	Locals  []Param
 	Invs    []*Clause
@@ -110,11 +116,12 @@ type PkgContracts struct {
 	Dir         string
 	Contracts   []*Contract
 	Transparent map[string]bool // Key()s of functions that are inlined instead of having a contract
+	Opaque      map[string]bool // recursive spec functions treated as uninterpreted with one-step unfolding
 	Imports     map[string]string
 	Assumes     []string
 }
 
-var kwRe = regexp.MustCompile(`^(func|props|requires|ensures|modifies|loop|invariant|decreases|transparent|end|trusted|bounded)\b`)
+var kwRe = regexp.MustCompile(`^(func|props|requires|ensures|modifies|loop|invariant|decreases|split|transparent|opaque|end|trusted|bounded)\b`)
 
 // ParseDir parses the contract file of one package directory (nil if none).
 func ParseDir(dir, pkgPath string) (*PkgContracts, error) {
@@ -126,7 +133,7 @@ func ParseDir(dir, pkgPath string) (*PkgContracts, error) {
 		}
 		return nil, err
 	}
-	pc := &PkgContracts{PkgPath: pkgPath, Dir: dir, Transparent: map[string]bool{}, Imports: map[string]string{}}
+	pc := &PkgContracts{PkgPath: pkgPath, Dir: dir, Transparent: map[string]bool{}, Opaque: map[string]bool{}, Imports: map[string]string{}}
 	fset := token.NewFileSet()
 	// package name and imports from all non-test files of the directory
 	ents, _ := os.ReadDir(dir)
@@ -201,6 +208,11 @@ func ParseDir(dir, pkgPath string) (*PkgContracts, error) {
 				pc.Transparent[f] = true
 			}
 			lastClause = nil
+		case "opaque":
+			for _, f := range strings.Fields(strings.ReplaceAll(rest, ",", " ")) {
+				pc.Opaque[f] = true
+			}
+			lastClause = nil
 		default:
 			if cur == nil {
 				return nil, fmt.Errorf("%s:%d: clause outside func block", path, i+1)
@@ -249,6 +261,16 @@ func ParseDir(dir, pkgPath string) (*PkgContracts, error) {
 				cl := &Clause{Kind: m, Text: rest, Line: i + 1, Idx: len(curLoop.Invs)}
 				curLoop.Invs = append(curLoop.Invs, cl)
 				lastClause = cl
+			case "split":
+				if curLoop == nil {
+					return nil, fmt.Errorf("%s:%d: split outside loop section", path, i+1)
+				}
+				var sp Split
+				if _, err := fmt.Sscanf(rest, "%s in %d..%d", &sp.Name, &sp.Lo, &sp.Hi); err != nil {
+					return nil, fmt.Errorf("%s:%d: bad split %q (want: split x in lo..hi)", path, i+1, rest)
+				}
+				curLoop.Splits = append(curLoop.Splits, sp)
+				lastClause = nil
 			case "decreases":
 				if curLoop == nil {
 					return nil, fmt.Errorf("%s:%d: decreases outside loop section", path, i+1)
